@@ -9,7 +9,10 @@
 //
 // Environment ops (done by the parent, they stand for "what was on disk before" / "time passes"):
 //   seed:<B>:intact|corrupt|trash   plant a copy of body B (intact / corrupt block file, trashed copy)
-//   tick                            every timestamp becomes old, every trash deadline expires
+//   tick                            every timestamp becomes old, every trash deadline expires, a full
+//                                   marker becomes stale
+//   full                            the volume is marked full the way keepstore marks it itself:
+//                                   symlink <root>/full -> <current unix time> (honoured for an hour)
 // Process ops (each runs in a CHILD process = one keepstore process lifetime; the child dies by
 // SIGKILL at the chosen point or exits right after the operation returned):
 //   put:<B>:<mode>                  PUT /<md5 B> through the router        mode = run | k<i> | c<i> | m<j>x<n>
@@ -604,8 +607,20 @@ func (h *verifC02Hist) normalise() {
 	}
 }
 
+func (h *verifC02Hist) full() {
+	p := filepath.Join(h.root, "full")
+	os.Remove(p)
+	if err := os.Symlink(strconv.FormatInt(time.Now().Unix(), 10), p); err != nil {
+		panic(err)
+	}
+}
+
 func (h *verifC02Hist) tick() {
 	h.ticks++
+	if p := filepath.Join(h.root, "full"); func() bool { _, err := os.Lstat(p); return err == nil }() {
+		os.Remove(p)
+		os.Symlink("1000000000", p)
+	}
 	old := time.Date(2001, 1, 1, 0, 0, 0, 0, time.UTC)
 	var renames [][2]string
 	h.walk(func(dir, name string, fi os.FileInfo) {
@@ -790,6 +805,8 @@ func verifC02Run(line string, tmp string, n int) (out string) {
 			h.seed(g[1], g[2])
 		case g[0] == "tick" && len(g) == 1:
 			h.tick()
+		case g[0] == "full" && len(g) == 1:
+			h.full()
 		case g[0] == "put" && len(g) == 3, g[0] == "touch" && len(g) == 3, g[0] == "untrash" && len(g) == 3,
 			g[0] == "del" && len(g) == 4, g[0] == "wb" && len(g) == 6, g[0] == "put2" && len(g) == 6:
 			h.note(g[1])
